@@ -191,6 +191,9 @@ func runScenarioMode(t *testing.T, mode string, rep *Report, rng *rand.Rand, n i
 			seed := mix(rep.Seed, int64(k), 99)
 			sc := g(rand.New(rand.NewSource(seed)), seed)
 			sc.Name = fmt.Sprintf("%s#%d", sc.Name, k)
+			if y := mix(seed, 9917) % 6; y < 2 {
+				sc.YieldLog = 1 + int(y)*2 // a third of the scenarios: a Logger that yields on every (third) record
+			}
 			switch mix(seed, 7711) % 4 {
 			case 0:
 				sc.MockErrs = true // every fourth scenario of every generator: the mock store's wording of refusals
